@@ -9,6 +9,7 @@ skip_serializing_if) are built into every reader of Model/Decode/*.lean and comp
 import Rs1090.Proofs.Decode.AllGood
 import Rs1090.Props.C11
 import Rs1090.Model.Decode.Timed
+import Rs1090.Props.C01
 namespace Rs1090.Props.C07
 open Rs1090 Rs1090.Model Rs1090.Model.Message
 
@@ -105,10 +106,11 @@ theorem timed_record (bs : List Nat) (kvs : List (Key × Json)) (ts : Json) (mda
     (hts : ts.wf = true) (hmeta : Json.wfList mdata = true) :
     (Timed.timedJson ts bs (some kvs) mdata).wf = true ∧
     parseHexAux (Timed.frameHex bs) [] = some bs ∧
-    tryFrom bs = .ok (.json (.obj kvs)) := by
+    (∀ bs', parseHexAux (Timed.frameHex bs) [] = some bs' → tryFrom bs' = .ok (.json (.obj kvs))) := by
   obtain ⟨kvs', e, hn, hw, _, hav⟩ := tryFrom_good bs _ h
   cases e
-  refine ⟨?_, by simpa using frame_hex_roundtrip bs hb [], h⟩
+  have hrt : parseHexAux (Timed.frameHex bs) [] = some bs := by simpa using frame_hex_roundtrip bs hb []
+  refine ⟨?_, hrt, fun bs' hb' => by rw [hrt] at hb'; cases hb'; exact h⟩
   have wfapp : ∀ a b : List (Key × Json), Json.wfObj (a ++ b) = (Json.wfObj a && Json.wfObj b) := by
     intro a b; induction a with
     | nil => simp [Json.wfObj]
@@ -136,6 +138,28 @@ theorem timed_record (bs : List Nat) (kvs : List (Key × Json)) (ts : Json) (mda
       simp only [List.mem_singleton] at hb'
       subst hab; subst hb'
       exact hk _ ha (by decide)
+
+/-! ### the pipeline's entry point
+
+jet1090's de-duplicator and decode1090 decode with `Message::from_bytes`, which ignores bytes after the
+frame.  Whatever it accepts is what `try_from` accepts on the frame proper (`C01.fromBytes_prefix`), so every
+statement above holds of it, with `bs` replaced by the first 7 / 14 bytes. -/
+
+theorem serialises_from_bytes (bs : List Nat) (d : Decoded) (h : fromBytes bs = .ok d) :
+    ∃ kvs, d = .json (.obj kvs) ∧ (Json.obj kvs).wf = true :=  by
+  obtain ⟨_, ht⟩ := Rs1090.Props.C01.fromBytes_prefix bs d h
+  obtain ⟨kvs, e⟩ := serialises _ d ht
+  subst e
+  exact ⟨kvs, rfl, json_wellformed _ _ ht⟩
+
+/-- a timed record made from an undecodable frame (`message: None` flattens to nothing) is well formed too -/
+theorem timed_record_undecoded (bs : List Nat) (ts : Json) (mdata : List Json)
+    (hts : ts.wf = true) (hmeta : Json.wfList mdata = true) :
+    (Timed.timedJson ts bs none mdata).wf = true := by
+  simp only [Timed.timedJson, Option.getD_none, List.append_nil, List.cons_append, List.nil_append, Json.wf,
+    Json.wfObj, hts, hmeta, keyIds, List.map_cons, List.map_nil, Bool.and_self, Bool.and_eq_true,
+    decide_eq_true_eq, Bool.true_and]
+  decide
 
 /-! sanity anchors: frames of the repository's own suite serialise -/
 example : ∃ kvs, tryFrom [0x8d,0x40,0x6b,0x90,0x20,0x15,0xa6,0x78,0xd4,0xd2,0x20,0xaa,0x4b,0xda] = .ok (.json (.obj kvs)) := by
